@@ -2,6 +2,7 @@
 # seedcheck.sh <dir> <N> <CHECK...> : apply change to /repo, run the given checks (quick), revert.
 DIR=$1; N=$2; shift 2
 git -C /repo status --short | grep -q . && { echo "/repo not clean"; exit 3; }
+trap "git -C /repo checkout -- . 2>/dev/null" EXIT
 git -C /repo apply $DIR/change$N.diff || exit 2
 for id in "$@"; do
   out=$(cd /verif && timeout 3000 ./vcheck $id ${TIER:-quick} 2>&1); rc=$?
